@@ -244,7 +244,7 @@ PROPS["C19"] = {
     "thorough_runs": 180000,
     "quick_wall": 240,
     "thorough_wall": 2400,
-    "params": {"delsym_p": 0.9, "symtabs_p": 0.9, "fwd_p": 0.6, "cfi_p": 0.4, "insfn_p": 0.0, "retarget_p": 0.2, "retarget_delete_p": 0.9},
+    "params": {"delsym_p": 0.9, "symtabs_p": 0.9, "fwd_p": 0.6, "cfi_p": 0.4, "insfn_p": 0.0, "retarget_p": 0.2, "retarget_delete_p": 0.9, "cfi_pe": True},
     "rule": "seeded scenarios (ELF and PE) whose symbols occur in random subsets of elfSymbolInfo, elfSymbolTabIdxInfo, "
     "elfSymbolVersions (shared / unshared version ids and libraries, base definition), functionNames, PE import/export lists, "
     "symbolForwarding keys and values, CFI personality/LSDA and symbolic expressions; sessions delete any number of symbols "
